@@ -62,6 +62,7 @@ class C08World(C01World):
         self.lock_ids: Dict[str, Any] = {}
         self.lock_writer: Any = None
         self.fence_saw: Dict[str, Any] = {}
+        self.overwrites: List[str] = []
         self.validated: Dict[str, str] = {}
         self.cas_log: List[Dict[str, Any]] = []
         w = self
@@ -89,6 +90,9 @@ class C08World(C01World):
             if req.op == "PUT" and req.key.endswith(HINT_NAME):
                 o = fake.objs.get(req.key)
                 self._prev[req.idx] = None if o is None else o.body.decode()
+            if req.op == "PUT" and req.key.endswith(".metadata.json") and req.key in fake.objs:
+                # a published (or at least uploaded) metadata version is immutable: nobody may write it again
+                self.overwrites.append(f"{root_actor(req.actor)} re-wrote an existing metadata object: {req.key.rsplit('/', 1)[-1]}")
 
         def after(req, res):
             if req.op == "PUT" and req.key.endswith(HINT_NAME) and not isinstance(res, BaseException):
@@ -154,6 +158,7 @@ class C08World(C01World):
         self.lock_ids = {}
         self.lock_writer = None
         self.fence_saw = {}
+        self.overwrites = []
         self.partitioned = set()
         if self.lock_variant == "cas":
             for i in range(len(self.ops)):
@@ -210,7 +215,7 @@ class C08World(C01World):
     def check(self, ex: Execution) -> None:
         before = len(self.rep.violations)
         super().check(ex)
-        problems: List[str] = []
+        problems: List[str] = list(self.overwrites[:2])
         for c in self.cas_log:
             if c["conditional"] is None:
                 problems.append(f"{c['actor']} advanced the pointer with an unconditional PUT")
@@ -242,7 +247,7 @@ class C08World(C01World):
             self.rep.add("executions_with_lock_takeover_or_renewal")
         if problems:
             self.rep.violation(
-                {"lock": self.lock_variant, "ops": list(self.ops), "problem": problems[0].split("'")[0][:60].strip(),
+                {"lock": self.lock_variant, "ops": list(self.ops), "problem": problems[0].split("'")[0].split(":")[0][:60].strip(),
                  "deviations": "pause" if any("pause" in t for t in ex.trace) else ("jump" if ex.jumps else "none")},
                 {"config": self.cfg, "choices": ex.choices, "schedule": ex.trace, "problems": problems,
                  "shared_keys": sorted(ex.ex.shared_keys), "shared_prefixes": sorted(ex.ex.shared_prefixes),
@@ -297,7 +302,9 @@ def configs(tier: str, seed: int) -> List[Dict[str, Any]]:
                     "sample": sample, "max_exec": max_exec, "pause_only": pause_only, "max_partitions": max_partitions,
                     "init": init})
 
-    pairs = [("append", "append"), ("append", "expire"), ("append", "delete_snap_first")]
+    # the last pair: two metadata-only commits (no new snapshot) derived from the same version
+    pairs = [("append", "append"), ("append", "expire"), ("append", "delete_snap_first"),
+             ("delete_snap_first", "delete_snap_second")]
     for lock in ("cas", "grantall"):
         for p in pairs:
             add(p, lock, sample=(lock == "cas" and p == pairs[0]))
